@@ -34,5 +34,8 @@ def obligations(tier):
     # which matches are rewritten at all: a match overlapping an earlier one (also one that strictly contains it) is skipped,
     # otherwise two replacements would cut the same line at stale offsets
     obs.append(Ob("L3.has_overlap_spec", "c03.py", "has_overlap_spec", {}, timeout=t, bounds="spans in 0..20 on 3 lines"))
+    for legacy in (False, True):
+        obs.append(Ob(f"L4.real_anchored_first_line[{'v1' if legacy else 'v2'}]", "c03.py", "real_anchored_first_line", {"legacy": legacy},
+                      timeout=t, bounds="BOM present/absent, 0..2 characters of the digit-free alphabet after the version, three line endings"))
     obs.append(Ob("twin.some_rewrite", "c03.py", "twin_never_rewrites", {}, expect="refute", timeout=60))
     return obs
